@@ -58,9 +58,12 @@ CLAIMED["C12"] = dict(
          "value width, ANY programs and EVERY schedule including preemption between two words: a load returns exactly one of the completely stored values (never a mixture), "
          "at least as new as the value current when it began, successive loads of a reader never go back, at most one producer token; plus arithmetic theorems that the two cells are "
          "aligned, disjoint and inside the reserved size for every size/alignment/aligned address (and a counter-theorem for unaligned addresses). Tied to /repo by steptrace on "
-         "UnrestrictedAtomic<[u64;W]> (copy-style and loan-style stores) and a differential run of the layout functions.",
+         "UnrestrictedAtomic<[u64;W]> (copy-style and loan-style stores) and a differential run of the layout functions. PORT LEVEL (Iox2/Props/C12Ports.lean, 38 theorems over all API histories of "
+         "an L1 model of Writer / Reader / EntryHandleMut / EntryValueUninit / EntryHandle): at most one writer port; per key at most one write handle including outstanding loans; a second request "
+         "is refused with the documented error and changes nothing; every value a reader obtains is the latest completed update of its key and reads are monotone per handle; wrong key/type refused; "
+         "reader limit. One natural statement is false and proved false (a dropped Writer keeps the writer slot while one of its handles lives); tied to /repo by a differential run of the real ports.",
     note="Trusted: Lean kernel + 3 standard axioms; hand-written L2 model (tie = trace comparison; word-level preemption is not observable in traces, only in the theorem); sequential "
-         "consistency; uniqueness of the writer port / entry handle at port level is checked elsewhere.",
+         "consistency; port level: hand-written L1 model (tie = differential run, exhaustive 3/4-call suffixes + random, local + ipc; API calls atomic; one node).",
     technique="Lean 4 proof (seqlock invariant over an interleaving semantics with word-granular copies) + atomic-step trace correspondence + differential layout check",
     design="DESIGN.md §5 C12")
 CLAIMED["C13"] = dict(
